@@ -37,6 +37,7 @@ RULE += (" A third of the cases selects a non-default correlation method whose t
 RULE += (" Aliases also occur without group-by (normalisation only).")
 RULE += (" Rule names also begin with the letters of an operator keyword (notable, not_r, android, or_x, order).")
 RULE += (" Correlation rules carry up to two aliases, also named like fields the pipeline renames, in both key orders.")
+RULE += (" A third of the backends quotes every field name: group-by, fields list, alias targets and the condition field must then be quoted alike.")
 ASSUMPTIONS = [
     "solo queries of referenced rules are computed by the same backend class on fresh objects (isolation, not semantics)",
     "the unit lengths s/m/h/d/w/M/y = 1/60/3600/86400/604800/2629746/31556952 seconds",
@@ -58,6 +59,11 @@ def map_field(f, pspec):
     if pspec.get("prefix"):
         f = "p." + f
     return f
+
+
+def quoter(cfg):
+    """How the backend configuration writes a (simple) field name."""
+    return (lambda n: "`" + n + "`") if cfg.get("field_profile") == "quoted" else (lambda n: n)
 
 
 def pipeline_dict(pspec, with_post=True):
@@ -95,6 +101,7 @@ def check_case(case: dict) -> Outcome:
     out = Outcome()
     cfg, ccfg, pspec = full_cfg(case["cfg"]), case["ccfg"], case.get("pipeline")
     rules, corrs = case["rules"], case["corrs"]
+    qf = quoter(cfg)
     main = corrs[0]
     c = main["correlation"]
     if c.get("rules") is None:
@@ -159,7 +166,7 @@ def check_case(case: dict) -> Outcome:
         for alias, m in aliases.items():
             for ref, fld in m.items():
                 if ref == r:
-                    res.append((alias, map_field(fld, pspec)))
+                    res.append((alias, qf(map_field(fld, pspec))))
         return res
 
     snodes = parse_brackets(search)
@@ -184,7 +191,11 @@ def check_case(case: dict) -> Outcome:
         cls = "finalised" if finalize_sub else "raw"
         out.fail(f"C10:search:queries:{cls}", f"{desc}: embedded {[(a, b) for a, b, _ in got_q]} expected {[(a, b) for a, b, _ in want_q]}")
     elif [n for _, _, n in got_q] != [n for _, _, n in want_q]:
-        out.fail("C10:search:normalization", f"{desc}: normalisation {[n for _, _, n in got_q]} expected {[n for _, _, n in want_q]}")
+        unq = [[(a, f.strip("`")) for a, f in n] for _, _, n in want_q]
+        if [n for _, _, n in got_q] == unq and unq != [n for _, _, n in want_q]:
+            out.fail("C10:normalisation-field:not-quoted", f"{desc}: alias targets are written without the field quoting of the backend: {[n for _, _, n in got_q]} expected {[n for _, _, n in want_q]}")
+        else:
+            out.fail("C10:search:normalization", f"{desc}: normalisation {[n for _, _, n in got_q]} expected {[n for _, _, n in want_q]}")
     # ---- typing
     if ccfg.get("typing"):
         try:
@@ -212,7 +223,7 @@ def check_case(case: dict) -> Outcome:
     if gb is None:
         want_gb = [("gbnone", "")]
     else:
-        want_gb = [("gb", "".join("f⟦" + (g if g in aliases else map_field(g, pspec)) + "⟧" for g in gb))]
+        want_gb = [("gb", "".join("f⟦" + qf(g if g in aliases else map_field(g, pspec)) + "⟧" for g in gb))]
     if parse_brackets(agg["groupby"][0]) != want_gb:
         out.fail("C10:group-by", f"{desc}: group-by {agg['groupby'][0]!r} expected {want_gb}")
     cd = c.get("condition") if isinstance(c.get("condition"), dict) else None
@@ -222,8 +233,11 @@ def check_case(case: dict) -> Outcome:
         want_field = str([map_field(x, pspec) for x in f]) if isinstance(f, list) else map_field(f, pspec)
     elif not ext:
         want_field = "None"  # no field given: the template receives the (absent) field as is
-    if not ext and agg["field"][0] != want_field:
-        out.fail("C10:condition-field", f"{desc}: aggregate field {agg['field'][0]!r} expected {want_field!r}")
+    if not ext and agg["field"][0] != (qf(want_field) if cd and isinstance(cd.get("field"), str) else want_field):
+        if cd and isinstance(cd.get("field"), str) and agg["field"][0] == want_field and qf(want_field) != want_field:
+            out.fail("C10:condition-field:not-quoted", f"{desc}: the condition field is written {agg['field'][0]!r} while every other field is quoted ({qf(want_field)!r})")
+        else:
+            out.fail("C10:condition-field", f"{desc}: aggregate field {agg['field'][0]!r} expected {want_field!r}")
     # ---- fields list: fields of the referenced rules in reference order, then the correlation rule's own,
     # without group-by fields, first occurrence kept, after field mapping
     if ccfg.get("fields"):
@@ -232,7 +246,7 @@ def check_case(case: dict) -> Outcome:
         for f in [map_field(x, pspec) for r in refs for x in by_key[r].get("fields", [])] + [map_field(x, pspec) for x in main.get("fields", [])]:
             if f not in gbm and f not in want_fl:
                 want_fl.append(f)
-        want_fields = [("cf", "".join("f⟦" + f + "⟧" for f in want_fl))] if want_fl else []
+        want_fields = [("cf", "".join("f⟦" + qf(f) + "⟧" for f in want_fl))] if want_fl else []
         try:
             got_fields = parse_brackets(agg["fields"][0])
         except BracketError as e:
@@ -268,8 +282,9 @@ def check_case(case: dict) -> Outcome:
             want_op, want_count = OPS[op], str(int(cd[op]))
         if (cond["op"][0], cond["count"][0]) != (want_op, want_count):
             out.fail("C10:condition-op-count", f"{desc}: op/count {(cond['op'][0], cond['count'][0])} expected {(want_op, want_count)}")
-        if cond["field"][0] != want_field:
-            out.fail("C10:condition-field", f"{desc}: condition field {cond['field'][0]!r} expected {want_field!r}")
+        if cond["field"][0] != (qf(want_field) if cd and isinstance(cd.get("field"), str) else want_field):
+            if not (cd and isinstance(cd.get("field"), str) and cond["field"][0] == want_field):  # raw name: reported above as not-quoted
+                out.fail("C10:condition-field", f"{desc}: condition field {cond['field'][0]!r} expected {want_field!r}")
     # ---- nested correlation: the second rule embeds the first one's query verbatim
     if len(corrs) > 1:
         got2 = per.get(corrs[1]["title"], [])
@@ -282,11 +297,11 @@ def check_case(case: dict) -> Outcome:
                 oslots = node_dict(otop[0][1])
                 oagg = node_dict(oslots["agg"][0])
                 ogb = oc.get("group-by")
-                want_ogb = [("gbnone", "")] if ogb is None else [("gb", "".join("f⟦" + map_field(g, pspec) + "⟧" for g in ogb))]
+                want_ogb = [("gbnone", "")] if ogb is None else [("gb", "".join("f⟦" + qf(map_field(g, pspec)) + "⟧" for g in ogb))]
                 if parse_brackets(oagg["groupby"][0]) != want_ogb:
                     out.fail("C10:nested-correlation:group-by", f"{desc}: outer {oc}: group-by {oagg['groupby'][0]!r} expected {want_ogb}")
                 of = oc["condition"].get("field")
-                if of is not None and oagg["field"][0] != map_field(of, pspec):
+                if of is not None and oagg["field"][0] not in (map_field(of, pspec), qf(map_field(of, pspec))):
                     out.fail("C10:nested-correlation:condition-field", f"{desc}: outer {oc}: field {oagg['field'][0]!r} expected {map_field(of, pspec)!r}")
             except (BracketError, AssertionError, KeyError, IndexError) as e:
                 out.fail("C10:nested-correlation:unparsable", f"{got2[0]!r}: {e!r}")
@@ -300,7 +315,7 @@ def check_case(case: dict) -> Outcome:
 def cases(draw):
     from vf.gen.rules import cfgs
     cfg = draw(cfgs(not_eq=False))
-    cfg["field_profile"] = "bare"
+    cfg["field_profile"] = draw(st.sampled_from(["bare", "bare", "quoted"]))
     ccfg = {"timespan": draw(st.sampled_from(["mapping", "seconds", "passthrough"])), "typing": draw(st.booleans()),
             "single": draw(st.booleans()), "finalize_sub": draw(st.booleans()), "fields": draw(st.booleans()),
             "normalization": True}
